@@ -372,8 +372,10 @@ PROPS['C02'] = dict(
                 witnesses=['done', 'merged_term_dropped', 'merged_term_kept', 'two_terms'], validate=[{'p0': 0, 'p1': 0, 'p2': 0, 'c0': 2, 'c1': -2, 'c2': 3, 'd0': 1, 'd1': '1/2', 'd2': -3, 'Pa': 1, 'Pb': '-1/2', 'zre': '1/3', 'zim': '1/2'}]),
            dict(name='termmerge_nonres_near', harness='h_termmerge', defs=['KIND=1', 'NADD=3', 'NEAR=1'], split={'p0': R(2), 'p1': R(2), 'p2': R(2)},
                 witnesses=['done', 'merged_term_dropped', 'merged_term_kept', 'two_terms']),
-           dict(name='termmerge_res_near', harness='h_termmerge', defs=['KIND=2', 'NADD=3', 'NEAR=1'], split={'p0': R(2), 'p1': R(2), 'p2': R(2)},
-                witnesses=['done', 'merged_term_dropped', 'merged_term_kept', 'two_terms'],
+           dict(name='termmerge_res_near_mixed', harness='h_termmerge', defs=['KIND=2', 'NADD=3', 'NEAR=1'], tiers=[T], job_timeout=1800, query_timeout_ms=600000,
+                split={'p0': R(2), 'p1': R(2), 'p2': R(2)}, witnesses=['done', 'merged_term_dropped', 'merged_term_kept', 'two_terms']),
+           dict(name='termmerge_res_near', harness='h_termmerge', defs=['KIND=2', 'NADD=3', 'NEAR=1'], split={'p0': [0], 'p1': [0], 'p2': [0]},
+                witnesses=['done', 'merged_term_dropped', 'merged_term_kept'],
                 validate=[{'p0': 0, 'p1': 0, 'p2': 0, 'c0': 2, 'c1': -2, 'c2': 3, 'd0': 1, 'd1': '1/2', 'd2': -3, 'Pa': 1, 'Pb': '-1/2', 'zre': '1/3', 'zim': '1/2',
                            'e0': '1/2000000000', 'e1': '-1/3000000000', 'e2': '1/4000000000'}]),
            dict(name='termmerge_res_4', harness='h_termmerge', defs=['KIND=2', 'NADD=4'], split={'p0': R(2), 'p1': R(2), 'p2': R(2), 'p3': R(2)},
